@@ -264,9 +264,15 @@ fn id_eq(a: &Value, b: &Value) -> bool {
     if a == b {
         return true;
     }
-    match (a.as_f64(), b.as_f64()) {
-        (Some(x), Some(y)) if a.is_f64() || b.is_f64() => (x - y).abs() <= 1e-12 * x.abs().max(y.abs()),
-        _ => false,
+    match (a, b) {
+        // structured ids are echoed too: the same tolerance applies to floats nested inside them (serde_json's
+        // default float parser / printer is not round-trip exact, and the text goes through it twice)
+        (Value::Array(x), Value::Array(y)) => x.len() == y.len() && x.iter().zip(y.iter()).all(|(p, q)| id_eq(p, q)),
+        (Value::Object(x), Value::Object(y)) => x.len() == y.len() && x.iter().all(|(k, p)| y.get(k).is_some_and(|q| id_eq(p, q))),
+        _ => match (a.as_f64(), b.as_f64()) {
+            (Some(x), Some(y)) if a.is_f64() || b.is_f64() => (x - y).abs() <= 1e-12 * x.abs().max(y.abs()),
+            _ => false,
+        },
     }
 }
 
